@@ -11,9 +11,10 @@ CONSTANTS
  MaxEdits = 1
  MaxEvents = 0
  MaxFaults = 0
+ MaxTicks = 0
  Export = FALSE
  RunToBlock = FALSE
  Mut = "none"
 SPECIFICATION Spec
-INVARIANTS InvPausedQuiet InvFlushFresh InvPauseSurvives InvTerminatedGone InvReset InvC11 InvNeverPropagated InvLoopShape
+INVARIANTS InvPausedQuiet InvFlushFresh InvPauseSurvives InvTerminatedGone InvReset InvC11 InvNeverPropagated InvLoopShape InvStatusMachine
 CHECK_DEADLOCK FALSE
